@@ -172,6 +172,7 @@ func (c *conn) writeloop() {
 				if errors.Is(err, net.ErrClosed) {
 					err = io.ErrClosedPipe
 				}
+				verifAt("server.writeloop.report")
 				req.err <- err
 				close(req.err)
 				// Close the client
@@ -203,6 +204,7 @@ func (c *conn) send(msg *kmip.ResponseMessage) error {
 		return err
 	}
 	tx := c.tx.Load().(chan txMsg)
+	verifAt("server.send.loaded")
 	errCh := make(chan error)
 	select {
 	case tx <- txMsg{msg: msg, err: errCh}:
